@@ -33,6 +33,7 @@ RULE += ' Round 5: part files reached through symbolic links; recordings of 2000
 RULE += ' Round 6: recordings of 12 x 3 and 40 x 2 rows with every pair of rows as an index list; up to 60 results per layout held by the caller and re-compared after all later reads; part files ending in an incomplete row.'
 RULE += ' Round 7: parts with equal base names in different folders; parts with different valid extensions; a 70-file recording with a header.'
 RULE += ' Round 8: one selector object applied twice in a chain; a dtype keyword contradicting the npy / array backend; one 21 MiB read over three files.'
+RULE += ' Round 9: 60 short-lived readers per file count, each dropped before the next is opened; files named through <symlinked folder>/.. with a decoy beside the link; rates at which the last file is exactly one or two 600-second chunks; compressed files with unequal chunk lengths.'
 EXHAUSTIVE = {'quick': True, 'thorough': True}
 EXHAUSTIVE_SCOPE = {'quick': 'n <= 6, all compositions; dtype/channel/offset axes rotate (not crossed)',
                     'thorough': 'n <= 9, all compositions x all dtypes; random larger layouts sampled'}
